@@ -20,6 +20,7 @@ struct StringRun {
         a = new S(R.mm); b = new S(R.mm);
         const int cap = (int)(R.plan.at("knobs").num("cap", 0) & 15);
         if (cap) a->reserve((sz)cap);
+        R.snapshot = [this] { Json o = Json::object(); o["op"] = "force_state"; o["a"] = jsonStr(ma); o["b"] = jsonStr(mb); return o; };
     }
     U read(const S& s, const char* which) {
         const sz n = s.length();
@@ -53,6 +54,7 @@ struct StringRun {
             if (hit == ok.size()) { R.corrupt("state", std::string(which) + " is " + show(S_) + "; before " + show(model) + ", intended " + show(ok.back())); R.res.count("fault-state:unacceptable"); }
             else if (which[0] == 'A') R.res.count(std::string("fault-state:") + (hit + 1 == ok.size() ? (S_ == model ? "noop" : "full") : hit == 0 ? "none" : "prefix"));
         }
+        if (S_ != model) R.opChanged = true;
         model = S_;
     }
     void after(const std::vector<U>& okA, const std::vector<U>* okB = 0) {
@@ -89,8 +91,13 @@ struct StringRun {
         const size_t cnt = std::min<size_t>(R.uarg("n") % 10, n - pos);            // pos+cnt <= n
         const bool nul = ma.find(u'\0') != U::npos;
 
+        if (o == "force_state") {
+            U wa, wb; for (int c : R.vals("a")) wa += (char16_t)c; for (int c : R.vals("b")) wb += (char16_t)c;
+            a->assign(wa.c_str(), (sz)wa.size()); b->assign(wb.c_str(), (sz)wb.size());
+            std::vector<U> okB = two(mb, wb); after(two(pre, wa), &okB);
+        }
         // ------------------------------------------------------------------ assignment
-        if (o == "assign_str") { const U t = text(); TmpStr x(t, R.mm); post = t; if (R.arg("via")) R.call([&] { *a = x.s; }); else R.call([&] { a->assign(x.s); }); after(three(pre, post)); }
+        else if (o == "assign_str") { const U t = text(); TmpStr x(t, R.mm); post = t; if (R.arg("via")) R.call([&] { *a = x.s; }); else R.call([&] { a->assign(x.s); }); after(three(pre, post)); }
         else if (o == "assign_ptr") { const U t = text(); TmpStr x(t, R.mm); post = t; if (R.arg("via")) R.call([&] { *a = x.s.c_str(); }); else R.call([&] { a->assign(x.s.c_str()); }); after(three(pre, post)); }
         else if (o == "assign_ptr_n") { const U t = text(); const size_t c = R.uarg("n") % (t.size() + 1); post = t.substr(0, c); R.call([&] { a->assign(t.c_str(), (sz)c); }); after(three(pre, post)); }
         else if (o == "assign_sub") {
